@@ -40,6 +40,14 @@ pub enum T2 {
     },
 }
 
+/// No accepted key at all: the unknown-field message ends with a space.
+#[derive(Debug, PartialEq, Deserr)]
+#[deserr(deny_unknown_fields)]
+pub struct T4 {
+    #[deserr(skip)]
+    hidden: u8,
+}
+
 #[derive(Debug, PartialEq, Deserr)]
 pub struct T3 {
     #[deserr(default = 7)]
@@ -484,6 +492,11 @@ fn bodies(target: &str) -> Vec<Vec<u8>> {
                 s(x);
             }
         }
+        "T4" => {
+            for x in [r#"{"verbose":1}"#, r#"{"hidden":1}"#, r#"{"a":1,"b":2}"#] {
+                s(x);
+            }
+        }
         "T3" => {
             for x in [
                 r#"{"inner":null}"#,
@@ -518,7 +531,7 @@ const CONTENT_TYPES: [Option<&str>; 6] = [
 
 fn query_strings() -> Vec<String> {
     let keys = ["q", "sortBy", "c", "zz"];
-    let vals = ["a", "name", "", "%C3%A9", "%", "a+b", "Name", "xy"];
+    let vals = ["a", "name", "", "%C3%A9", "%", "a+b", "Name", "xy", "a=b", "YWJj=="];
     let mut pairs: Vec<String> = vec![];
     for k in keys {
         pairs.push(k.to_string()); // key without '='
@@ -638,13 +651,13 @@ fn describe(steps: &[Step]) -> String {
         .join(" → ")
 }
 
-fn run_query(rec: &Recorder, outcomes: &mut HashSet<u64>) {
+fn run_query<E: Prescribed>(rec: &Recorder, outcomes: &mut HashSet<u64>) where Q1: Deserr<E> {
     use actix_web::web::Query;
     let qs = query_strings();
     let mut execs = 0u64;
     for q in &qs {
         let got: Extracted = guarded(
-            || match deserr::actix_web::AwebQueryParameter::<Q1, JsonError>::from_query(q) {
+            || match deserr::actix_web::AwebQueryParameter::<Q1, E>::from_query(q) {
                 Ok(v) => Extracted::Value(format!("{:?}", v.into_inner())),
                 Err(e) => actix_error_outcome(&e),
             },
@@ -653,9 +666,12 @@ fn run_query(rec: &Recorder, outcomes: &mut HashSet<u64>) {
         let want: Extracted = guarded(
             || match Query::<serde_json::Value>::from_query(q) {
                 Err(e) => actix_error_outcome(&actix_web::Error::from(e)),
-                Ok(doc) => match deserr::deserialize::<Q1, _, JsonError>(doc.into_inner()) {
+                Ok(doc) => match deserr::deserialize::<Q1, _, E>(doc.into_inner()) {
                     Ok(v) => Extracted::Value(format!("{v:?}")),
-                    Err(e) => Extracted::Rejected { status: 400, body: e.to_string() },
+                    Err(e) => {
+                        let (status, body) = e.prescribed();
+                        Extracted::Rejected { status, body }
+                    }
                 },
             },
             Extracted::Panicked,
@@ -672,7 +688,7 @@ fn run_query(rec: &Recorder, outcomes: &mut HashSet<u64>) {
                     return want.clone();
                 }
                 let mut pl = actix_web::dev::Payload::None;
-                match drive(deserr::actix_web::AwebQueryParameter::<Q1, JsonError>::from_request(&req, &mut pl)) {
+                match drive(deserr::actix_web::AwebQueryParameter::<Q1, E>::from_request(&req, &mut pl)) {
                     None => Extracted::Stuck,
                     Some((Ok(v), _)) => Extracted::Value(format!("{:?}", v.into_inner())),
                     Some((Err(e), _)) => actix_error_outcome(&e),
@@ -681,12 +697,12 @@ fn run_query(rec: &Recorder, outcomes: &mut HashSet<u64>) {
             Extracted::Panicked,
         );
         execs += 3;
-        outcomes.insert(hash64(&("query", &want)));
+        outcomes.insert(hash64(&("query", std::any::type_name::<E>(), &want)));
         for (label, g) in [("from_query", &got), ("FromRequest", &via_request)] {
             if *g != want {
                 rec.violation(Violation {
                     property: "C20".into(),
-                    subject: format!("AwebQueryParameter::{label}"),
+                    subject: format!("AwebQueryParameter::{label} / {}", std::any::type_name::<E>().rsplit("::").next().unwrap_or("")),
                     message: format!("query string {q:?}: extractor yields {g:?} but framework Query + deserialize yields {want:?}"),
                     replay: json!({"kind": "c20-query", "query": q}),
                 });
@@ -720,12 +736,15 @@ fn main() {
     run_target::<T1, JsonError>("T1", tier, &rec, &mut outcomes);
     run_target::<T2, JsonError>("T2", tier, &rec, &mut outcomes);
     run_target::<T3, JsonError>("T3", tier, &rec, &mut outcomes);
+    run_target::<T4, JsonError>("T4", tier, &rec, &mut outcomes);
     // a user-defined keep-going error type rendered as 422: the rejection must carry exactly it
     run_target::<T1, HttpErr>("T1", tier, &rec, &mut outcomes);
     run_target::<T2, HttpErr>("T2", tier, &rec, &mut outcomes);
     run_target::<T3, HttpErr>("T3", tier, &rec, &mut outcomes);
+    run_target::<T4, HttpErr>("T4", tier, &rec, &mut outcomes);
     ACTIX_LIMIT.with(|c| c.set(None));
-    run_query(&rec, &mut outcomes);
+    run_query::<JsonError>(&rec, &mut outcomes);
+    run_query::<HttpErr>(&rec, &mut outcomes);
     rec.add_signatures(&outcomes, &outcomes);
     rec.set_extra("poll_horizon", json!(HORIZON));
     rec.set_extra("content_types", json!(CONTENT_TYPES.iter().map(|c| format!("{c:?}")).collect::<Vec<_>>()));
